@@ -1,7 +1,7 @@
 (* Props/C04.v -- property theorems only: Theorem / exact lemma / Check (pins the statement) / Print Assumptions.
    C04: a banded matrix behaves exactly like the dense matrix with the same band. *)
 From Coq Require Import List Arith ZArith QArith Qcanon Lia Floats.
-From OV Require Import Base.Panic Base.Arith Base.Flat Model.Vector Model.Matrix Model.Banded Inst.QcInst Inst.FloatInst Proofs.Banded Proofs.BandedLU Proofs.BandedTotal Proofs.BandedComplete Proofs.BandedDet Proofs.BandedHist Proofs.BandedEdit Legacy.C04Refuted.
+From OV Require Import Base.Panic Base.Arith Base.Flat Model.Vector Model.Matrix Model.Banded Inst.QcInst Inst.FloatInst Proofs.Banded Proofs.BandedLU Proofs.BandedTotal Proofs.BandedComplete Proofs.BandedDet Proofs.BandedHist Proofs.BandedEdit Proofs.BandedFill Legacy.C04Refuted.
 Import ListNotations.
 Local Open Scope nat_scope.
 
@@ -113,6 +113,20 @@ Check band_edit_dense : forall (A : Arith) (B : banded A) (x : A),
 Print Assumptions band_edit_dense.
 Example band_edit_dense_nonvacuous : wfB ex_B /\ 1 < bn ex_B /\ 2 < bn ex_B /\ in_band (bm1 ex_B) (bm2 ex_B) 1 2 = true.
 Proof. repeat split; cbn; lia. Qed.
+
+(* Banded::fill: every in-band entry of the dense twin becomes x *)
+Theorem band_fill_dense_thm : forall (A : Arith) (B : banded A) (x : A),
+  wfB B ->
+  exists B', band_fill B x = Ok B' /\ wfB B' /\ bn B' = bn B /\ bm1 B' = bm1 B /\ bm2 B' = bm2 B /\
+    forall i j, i < bn B -> j < bn B ->
+      dense_entry B' i j = if in_band (bm1 B) (bm2 B) i j then x else zero.
+Proof. intros A B x. exact (band_fill_dense B x). Qed.
+Check band_fill_dense_thm : forall (A : Arith) (B : banded A) (x : A),
+  wfB B ->
+  exists B', band_fill B x = Ok B' /\ wfB B' /\ bn B' = bn B /\ bm1 B' = bm1 B /\ bm2 B' = bm2 B /\
+    forall i j, i < bn B -> j < bn B ->
+      dense_entry B' i j = if in_band (bm1 B) (bm2 B) i j then x else zero.
+Print Assumptions band_fill_dense_thm.
 
 (* ---- the hypothesis wfB of the theorems above holds of every matrix the public API can build: it holds of
    Banded::new and every operation (a panicking one leaves the matrix as it was) preserves it ---- *)
